@@ -427,24 +427,19 @@ def reference(pool, rep, filt, members, blocks):
     w = [fac[i] * vol[i] for i in range(len(members))]
     ref.update(expect="ok", w=w, xs=xs, bu=bu, fac=fac)
     wsum = _fsum(w[i] for i in elig)
-    # nuclide temperatures (collection level), atoms-weighted and block-weighted
+    # nuclide temperatures (collection level): collection-weighted ratio of the members' block-level
+    # terms, T = sum_b w_b (nvT)_b / sum_b w_b (nv)_b, with w_b the block weight of the density average
     if rep != "Median":
         nT = {}
         nTrange = {}
-        nT2 = {}  # what results when the block volume is applied a second time (diagnosis only)
         for nuc in pool.nucs:
             terms = [nuc_temp_terms(xs[i], nuc, infos[i]["sf"]) for i in elig]
-            # the n*v terms already carry the member's volume: the member's share is
-            # weighting parameter (or 1) x atoms, i.e. block weight x atom density
-            num = _fsum(fac[i] * t[0] for i, t in zip(elig, terms))
-            den = _fsum(fac[i] * t[1] for i, t in zip(elig, terms))
+            num = _fsum(w[i] * t[0] for i, t in zip(elig, terms))
+            den = _fsum(w[i] * t[1] for i, t in zip(elig, terms))
             nT[nuc] = num / den if den else 0.0
-            num2 = _fsum(w[i] * t[0] for i, t in zip(elig, terms))
-            den2 = _fsum(w[i] * t[1] for i, t in zip(elig, terms))
-            nT2[nuc] = num2 / den2 if den2 else 0.0
             ts = [c["T"] for i in elig for c in xs[i]["comps"] if nuc in c["nd"]]
             nTrange[nuc] = (min(ts), max(ts)) if ts else (0.0, 0.0)
-        ref["nT"], ref["nTrange"], ref["nT2"] = nT, nTrange, nT2
+        ref["nT"], ref["nTrange"] = nT, nTrange
         hm = [xs[i]["massHmBOL"] * fac[i] for i in range(len(members))]
         hsum = _fsum(hm[i] for i in elig)
         ref["bu_mean"] = _fsum(hm[i] * bu[i] for i in elig) / hsum if hsum else 0.0
@@ -557,10 +552,7 @@ def compare(pool, rep, filt, members, blocks, ref, status, res, rb, case):
         want = ref["nT"][nuc]
         lo, hi = ref["nTrange"][nuc]
         if got is None or not _close(got, want):
-            if got is not None and _close(got, ref["nT2"][nuc]):
-                bad("nuclide-temperature-volume-weighted-twice", "avg temperature of %s = %r; weight (flux-or-1 x volume) x atom-density mean over the eligible members = %r; the result equals the mean in which each member's volume is applied twice (%r)" % (nuc, got, want, ref["nT2"][nuc]))
-            else:
-                bad(tag + "-nuclide-temperature-mean", "avg temperature of %s = %r, weight-normalised atom-weighted mean over the eligible members = %r" % (nuc, got, want))
+            bad(tag + "-nuclide-temperature-mean", "avg temperature of %s = %r, block-weighted ratio of the eligible members' n*v*T and n*v terms = %r" % (nuc, got, want))
             break
     for nuc in pool.nucs:
         got = res["nT"].get(nuc)
@@ -993,17 +985,11 @@ def _eval_mgr(case):
                 bad("burnup-mean", "group %s: percentBu of the representative = %r, heavy-metal-weighted mean over the eligible members = %r" % (key, float(rb.p.percentBu), wb))
             for nuc in ("U238", "FE56", "NA23"):
                 terms = [nuc_temp_terms(xsd[id(b)], nuc, sfs[id(b)]) for b in el]
-                fc = [(float(b.p.flux) if usesFlux and b.p.flux else 1.0) for b in el]
-                den = _fsum(f * t[1] for f, t in zip(fc, terms))
-                wantT = _fsum(f * t[0] for f, t in zip(fc, terms)) / den if den else 0.0
-                den2 = _fsum(wi * t[1] for wi, t in zip(w, terms))
-                want2 = _fsum(wi * t[0] for wi, t in zip(w, terms)) / den2 if den2 else 0.0
+                den = _fsum(wi * t[1] for wi, t in zip(w, terms))
+                wantT = _fsum(wi * t[0] for wi, t in zip(w, terms)) / den if den else 0.0
                 got = mgr.getNucTemperature(key, nuc)
                 if got is None or not _close(got, wantT):
-                    if got is not None and _close(got, want2):
-                        vs.append(core.viol("c20/nuclide-temperature-volume-weighted-twice", "manager group %s (%s): temperature of %s = %r; weight x atom-density mean over the eligible members = %r; the result equals the mean in which each member's volume is applied twice | case=%s" % (key, [b.getName() for b in el], nuc, float(got), wantT, {k: v for k, v in case.items() if k != "kind"}), case))
-                    else:
-                        bad("nuclide-temperature-mean", "group %s: temperature of %s = %r, expected %r" % (key, nuc, None if got is None else float(got), wantT))
+                    bad("nuclide-temperature-mean", "group %s: temperature of %s = %r, expected %r" % (key, nuc, None if got is None else float(got), wantT))
                     break
     return vs, 1
 
